@@ -40,6 +40,14 @@ hull, facets, vertex neighbours, adjacency graph, sparse matrices) and index-bac
 (closest surface point, kdtree) - a state where the cache holds more than read-only arrays;
 scenes with a camera / lights that were set, graph options, a primitive among the geometries;
 textured meshes with further per-vertex data in the visual; meshes with given vertex normals.
+
+Round 5: the material of a textured mesh is read parameter by parameter (snap_material: glTF
+parameters and the five textures of a PBRMaterial, MTL parameters / keyword arguments of a
+SimpleMaterial, name, hash) and built with every parameter at boundary values (0.0, 0, False, "",
+all-zero colours, empty list, one black pixel: legal and falsy), at ordinary values, or drawn per
+parameter from {unset, boundary, ordinary}; a scene holding such a mesh; edits of the material
+(assignments to and from the boundary values, in-place writes into colours / textures / kwargs).
+`unfaithful:<..material.field>(unset_in_copy)`: a parameter that was set reads None in the copy.
 """
 
 from __future__ import annotations
@@ -58,7 +66,7 @@ RULE = (
     "primitives Box Sphere Cylinder Capsule Extrusion with non-default sections/subdivisions, Path2D, "
     "Path3D, PointCloud with colours, Scene (nested graph, geometry instanced twice, nested metadata), "
     "VoxelGrid x {Dense, Sparse, RLE, BRLE}; states: derived objects and spatial indexes read before the copy, "
-    "given vertex normals, per-vertex data in a texture visual, scene with camera (focal / fov defined) and "
+    "given vertex normals, per-vertex data in a texture visual, PBRMaterial / SimpleMaterial with every parameter at boundary (falsy) / ordinary / mixed values, scene with camera (focal / fov defined) and "
     "lights set, graph options, primitive among the scene geometries. distinct = distinct (kind, variant, parameter seed, route, "
     "edit, edited side, source warm, other side warm); non-trivial = the edit changed the snapshot of "
     "the edited object (so a leak was observable)."
@@ -92,6 +100,7 @@ ASSUMPTIONS = [
     "face_attributes / vertex_attributes are not in the statement: differences are evidence only",
     "camera and lights that were SET (constructor arguments of Scene) are parameters of a scene; generated defaults are not read",
     "scene._lights is peeked only to decide whether reading scene.lights would generate lights (random names, new graph nodes)",
+    "a material colour that was not given is trimesh.visual.color.DEFAULT_COLOR itself (module-level, writable): compared by identity only to keep in-place edits away from it",
     "kdtree ties: both sides build the same tree from the same points, so the reported index is deterministic",
 ]
 EXHAUSTIVE = {"quick": False, "thorough": False}
@@ -218,6 +227,34 @@ def snap_visual(v, S, pre=""):
             img = getattr(mat, "image", None)
             if img is not None:
                 S[pre + "visual.material.image"] = _try(lambda: (list(img.size), img.mode, img.tobytes()))
+            snap_material(mat, S, pre + "visual.material.")
+
+
+# every parameter a material reports (round 5): the glTF parameters of a PBRMaterial, the MTL
+# parameters of a SimpleMaterial.  Textures are read as (size, mode, pixel bytes).
+_PBR_VALUES = ("emissiveFactor", "baseColorFactor", "metallicFactor", "roughnessFactor", "alphaMode", "alphaCutoff", "doubleSided")
+_PBR_TEXTURES = ("baseColorTexture", "emissiveTexture", "normalTexture", "occlusionTexture", "metallicRoughnessTexture")
+_SIMPLE_VALUES = ("ambient", "diffuse", "specular", "glossiness", "kwargs")
+
+
+def _pixels(img):
+    return None if img is None else [list(img.size), img.mode, img.tobytes()]
+
+
+def snap_material(mat, S, pre):
+    cls = type(mat).__name__
+    S[pre + "class"] = cls
+    S[pre + "name"] = _try(lambda: mat.name)
+    if cls == "PBRMaterial":
+        for key in _PBR_VALUES:
+            S[pre + key] = _try(lambda key=key: getattr(mat, key))
+        for key in _PBR_TEXTURES:
+            S[pre + key] = _try(lambda key=key: _pixels(getattr(mat, key)))
+    elif cls == "SimpleMaterial":
+        for key in _SIMPLE_VALUES:
+            S[pre + key] = _try(lambda key=key: getattr(mat, key))
+    # what the exporters use to tell materials apart (same process: the same salt on both sides)
+    S[pre + "hash"] = _try(lambda: hash(mat))
 
 
 # the variants named `...+derived_reads` also read derived objects and index-backed queries (these
@@ -403,6 +440,59 @@ def _image(rng):
     return Image.fromarray(px, "RGB")
 
 
+def _material(variant, rng):
+    """
+    A material whose parameters are all at boundary values (0.0, False, "", all-zero colours,
+    a one pixel black texture: legal values that are falsy), all at ordinary values (every
+    parameter and every texture set), or each one drawn from {unset, boundary, ordinary}.
+    """
+    from PIL import Image
+
+    from trimesh.visual.material import PBRMaterial, SimpleMaterial
+
+    cls, level = re.match(r"texture\+(\w+)\((\w+)\)", variant).groups()
+
+    def pick(boundary, ordinary):
+        ordinary = ordinary()
+        if level == "boundary":
+            return boundary
+        if level == "ordinary":
+            return ordinary
+        return (None, boundary, ordinary)[int(rng.integers(3))]
+
+    black = Image.new("RGB", (1, 1))
+    if cls == "pbr":
+        return PBRMaterial(
+            name=pick("", lambda: "paint"),
+            emissiveFactor=pick([0.0, 0.0, 0.0], lambda: rng.integers(1, 9, size=3) / 8.0),
+            baseColorFactor=pick([0, 0, 0, 0], lambda: rng.integers(1, 256, size=4).astype(np.uint8)),
+            metallicFactor=pick(0.0, lambda: 0.25),
+            roughnessFactor=pick(0, lambda: 0.75),
+            alphaMode=pick("MASK", lambda: "BLEND"),
+            alphaCutoff=pick(0.0, lambda: 0.625),
+            # (never None: the constructor's "unset" for this parameter is False)
+            doubleSided=bool(pick(False, lambda: True)),
+            baseColorTexture=pick(black, lambda: _image(rng)),
+            metallicRoughnessTexture=pick(None, lambda: _image(rng)),
+            emissiveTexture=pick(None, lambda: _image(rng)),
+            normalTexture=pick(None, lambda: _image(rng)),
+            occlusionTexture=pick(None, lambda: _image(rng)),
+        )
+    mat = SimpleMaterial(
+        image=pick(black, lambda: _image(rng)),
+        diffuse=pick([0, 0, 0, 0], lambda: rng.integers(1, 256, size=4).astype(np.uint8)),
+        ambient=pick([0, 0, 0, 0], lambda: rng.integers(1, 256, size=4).astype(np.uint8)),
+        specular=pick([0, 0, 0, 0], lambda: rng.integers(1, 256, size=4).astype(np.uint8)),
+        glossiness=pick(0.0, lambda: 25.0),
+        # further MTL statements are kept as keyword arguments
+        **(pick({"d": 0.0, "illum": 0, "map_bump": "", "Tf": []}, lambda: {"Ni": 1.5, "illum": 2, "Ke": [0.0, 0.5, 1.0]}) or {}),
+    )
+    name = pick("", lambda: "paint")
+    if name is not None:
+        mat.name = name
+    return mat
+
+
 def f_trimesh(variant):
     def make(seed):
         import trimesh
@@ -429,6 +519,10 @@ def f_trimesh(variant):
             m.visual = TextureVisuals(uv=rng.random((len(V), 2)), image=_image(rng))
             m.visual.vertex_attributes["color"] = rng.integers(0, 256, size=(len(V), 4)).astype(np.uint8)
             m.visual.vertex_attributes["weight"] = rng.random(len(V))
+        elif variant.startswith("texture+pbr(") or variant.startswith("texture+simple("):
+            # a material given as such (what the glTF / OBJ loaders build), parameters at
+            # boundary / ordinary / mixed values
+            m.visual = TextureVisuals(uv=rng.random((len(V), 2)), material=_material(variant, rng))
         elif variant == "given_vertex_normals":
             # vertex normals that come with the data (constructor / setter / OBJ vn, PLY nx ny nz,
             # glTF NORMAL), not the ones the library would derive from the faces
@@ -525,7 +619,7 @@ def f_cloud(seed):
                               colors=rng.integers(0, 256, size=(n, 4)).astype(np.uint8), metadata=NESTED())
 
 
-def f_scene_with(camera=None, lights=False, graph_options=False, primitive=False):
+def f_scene_with(camera=None, lights=False, graph_options=False, primitive=False, material=None):
     """
     The nested scene, optionally with what else a Scene holds: a camera that was set (defined by
     its focal length or by its field of view, non-default clipping planes), lights that were set
@@ -544,7 +638,7 @@ def f_scene_with(camera=None, lights=False, graph_options=False, primitive=False
 
         rng = np.random.default_rng(seed)
         a = f_trimesh("face")(seed * 3 + 1)
-        b = f_trimesh("plain")(seed * 3 + 2)
+        b = f_trimesh(material or "plain")(seed * 3 + 2)
         if graph_options:
             threshold = (None, 1e-3, 1e-9)[seed % 3]
             s = trimesh.Scene(base_frame="root", graph=SceneGraph(base_frame="root", repair_rigid=threshold))
@@ -673,11 +767,19 @@ def _prep_voxel_warm_transform(v):
     v.transform[0, 3] += 2.0
 
 
+_MATERIAL_VARIANTS = ("texture+pbr(boundary)", "texture+pbr(ordinary)", "texture+pbr(mixed)",
+                      "texture+simple(boundary)", "texture+simple(ordinary)", "texture+simple(mixed)")
+
+
 def factories():
     out = []
     for v in ("plain", "face", "vertex", "texture", "attrs", "default_vertex_colors_edited", "default_face_colors_edited",
               "texture+vertex_data", "given_vertex_normals"):
         out.append(("Trimesh", v, f_trimesh(v)))
+    # materials of textured meshes: every parameter at boundary / ordinary / mixed values
+    for v in _MATERIAL_VARIANTS:
+        out.append(("Trimesh", v, f_trimesh(v)))
+    out.append(("Scene", "nested+material(pbr)", f_scene_with(material="texture+pbr(boundary)")))
     # states reached by a history before the copy is taken
     out.append(("Trimesh", "plain+warm_inplace_edit", prepared(f_trimesh("plain"), _prep_warm_inplace_vertices)))
     out.append(("Trimesh", "plain+normals_transform", prepared(f_trimesh("plain"), _prep_normals_transform)))
@@ -775,6 +877,61 @@ def _derived_edits():
     ]
 
 
+def _bump_list(mat):
+    hit = [k for k in ("Ke", "Tf") if k in mat.kwargs]
+    if not hit:
+        raise LookupError("no list among the keyword arguments")
+    for k in hit:
+        mat.kwargs[k].append(1.0)
+
+
+def _own_color(arr):
+    # a colour that was not given is the ONE module-level array trimesh.visual.color.DEFAULT_COLOR
+    # (writable): an in-place write would change the default colour of every material built later
+    # in this process, i.e. the monitor's twins (same precaution as _light)
+    from trimesh.visual import color
+
+    if arr is color.DEFAULT_COLOR:
+        raise LookupError("the colour is the module-level default")
+    return arr
+
+
+def _material_edits(variant, get=lambda m: m.visual.material, pre=""):
+    """Edits of a material through its owner: assignments of parameters (to and from the boundary
+    values), in-place writes into the colour arrays / textures / keyword arguments it hands out."""
+    from PIL import Image
+
+    def on(fn):
+        return lambda o: fn(get(o))
+
+    if "pbr" in variant:
+        E = [
+            ("material_metallic_assign", on(lambda t: setattr(t, "metallicFactor", 0.0 if t.metallicFactor else 0.5))),
+            ("material_roughness_assign", on(lambda t: setattr(t, "roughnessFactor", 0.0 if t.roughnessFactor else 0.5))),
+            ("material_alpha_assign", on(lambda t: (setattr(t, "alphaCutoff", 0.0 if t.alphaCutoff else 0.875), setattr(t, "alphaMode", "OPAQUE")))),
+            ("material_doublesided_assign", on(lambda t: setattr(t, "doubleSided", not bool(t.doubleSided)))),
+            ("material_name_assign", on(lambda t: setattr(t, "name", "" if t.name else "renamed"))),
+            ("material_basecolor_inplace", on(lambda t: t.baseColorFactor.__setitem__(1, (int(t.baseColorFactor[1]) + 100) % 256))),
+            ("material_basecolor_assign", on(lambda t: setattr(t, "baseColorFactor", [9, 8, 7, 255]))),
+            ("material_emissive_inplace", on(lambda t: t.emissiveFactor.__setitem__(0, (t.emissiveFactor[0] + 0.5) % 1.0))),
+            ("material_texture_putpixel", on(lambda t: t.baseColorTexture.putpixel((0, 0), (1, 2, 3)))),
+            ("material_texture_assign", on(lambda t: setattr(t, "metallicRoughnessTexture", Image.new("RGB", (2, 2), (5, 6, 7))))),
+            ("material_texture_remove", on(lambda t: setattr(t, "baseColorTexture", None))),
+        ]
+    else:
+        E = [
+            ("material_image_putpixel", on(lambda t: t.image.putpixel((0, 0), (1, 2, 3)))),
+            ("material_diffuse_assign", on(lambda t: setattr(t, "diffuse", np.array([9, 8, 7, 255], dtype=np.uint8)))),
+            ("material_diffuse_inplace", on(lambda t: _own_color(t.diffuse).__setitem__(1, (int(t.diffuse[1]) + 100) % 256))),
+            ("material_specular_inplace", on(lambda t: _own_color(t.specular).__setitem__(0, (int(t.specular[0]) + 100) % 256))),
+            ("material_glossiness_assign", on(lambda t: setattr(t, "glossiness", 0.0 if t.glossiness else 12.5))),
+            ("material_kwargs_edit", on(lambda t: (t.kwargs.__setitem__("illum", 7), t.kwargs.pop("d", None)))),
+            ("material_kwargs_list_inplace", on(_bump_list)),
+            ("material_name_assign", on(lambda t: setattr(t, "name", "" if t.name else "renamed"))),
+        ]
+    return [(pre + n, f) for n, f in E]
+
+
 def edits_for(obj, variant):
     import trimesh
     import trimesh.path.entities  # noqa
@@ -840,6 +997,10 @@ def edits_for(obj, variant):
             # reports from the object it is attached to
             E.append(("faces_subset_then_one_face_color", lambda m: (setattr(m, "faces", np.array(m.faces[:-1])), setattr(m.visual, "face_colors", [9, 8, 7, 255]))))
         E += common
+        if variant in _MATERIAL_VARIANTS:
+            E = [e for e in E if e[0] in ("vertices_inplace", "metadata_nested")]
+            E.append(("visual_uv_inplace", lambda m: m.visual.uv.__setitem__((0, 0), m.visual.uv[0, 0] + 0.25)))
+            E += _material_edits(variant)
         if "derived_reads" in variant:
             # edits of what the mesh hands out: the hull is a mesh, facets / neighbours are lists
             E = [e for e in E if e[0] in ("vertices_inplace", "apply_transform", "update_faces")] + _derived_edits()
@@ -914,6 +1075,9 @@ def edits_for(obj, variant):
                 ("lights_remove", lambda s: s.lights.remove(_light(s, "spot"))),
                 ("light_transform", lambda s: s.graph.update(frame_to="lamp", matrix=_T2)),
             ]
+        if "material" in variant:
+            keep = ("material_metallic_assign", "material_name_assign", "material_basecolor_inplace", "material_texture_putpixel")
+            E += [e for e in _material_edits(variant, get=lambda s: s.geometry["B"].visual.material, pre="geometry_") if e[0][len("geometry_"):] in keep]
         if "primitive" in variant:
             E += [
                 ("geometry_primitive_transform", lambda s: s.geometry["P"].apply_transform(_T2)),
@@ -955,6 +1119,16 @@ def _reduce_fields(fields):
         if f == "encoding.class":
             continue
         out.append(f)
+    # a material: its hash restates its parameters, its main colour the base colour / diffuse colour
+    for f in [f for f in out if ".material." in f and f.rsplit(".", 1)[1] not in ("hash", "main_color")]:
+        stem, leaf = f.rsplit(".", 1)
+        drop = {stem + ".hash"}
+        if leaf in ("baseColorFactor", "diffuse", "class"):
+            drop.add(stem + ".main_color")
+        if leaf in ("class",):
+            drop.update(g for g in out if g.startswith(stem + ".") and g != f)
+        out = [g for g in out if g not in drop]
+    # (the texture of a SimpleMaterial is read once: as `image`)
     # scene-level values derived from the graph / the geometries
     if any(f.startswith("graph.edges") or f.startswith("geometry.") for f in out):
         out = [f for f in out if f not in ("bounds", "graph.world")]
@@ -1070,6 +1244,9 @@ def faithful_stage(h, src_warm):
         if bad:
             # the copy cannot answer what the original answers
             sym += "(raised:%s)" % bad[0][1]
+        elif ".material." in f and fr and Sy.get(fr[0]) is None and S0.get(fr[0]) is not None:
+            # a parameter of the material that was set reads as unset in the copy
+            sym += "(unset_in_copy)"
         run.violation(h.key(sym), "the copy reports a different `%s` than the original" % f,
                       h.case(src_warm=src_warm, field=f, original=_brief(S0.get(fr[0] if fr else f)), copy=_brief(Sy.get(fr[0] if fr else f)), all_fields=raw))
     if y is x:
